@@ -7,6 +7,7 @@
 //   T5 ct     : functions documented constant time → Gen/CT
 //   T6 shared : package-level state and writes → Gen/Shared
 //   T7 bytes  : guard-style byte parsers (ParseDERSignature) → executable Lean in the Outcome monad (Gen/BytesProg)
+//   T8 drivers: value-level glue functions (sign, Verify, RecoverPublicKey, Schnorr, ECDH …) → executable Lean (Gen/Drivers)
 //   T2s slice : field arithmetic of every other function (Verify, sign, parsers, loops …) → Gen/Slices
 // Every pass fails closed: anything outside its subset is an error (exit 1),
 // which ./check reports as a broken tie.
@@ -181,6 +182,8 @@ func main() {
 		add("BytesProg.lean", c3, e3)
 		c4, e4 := passBuilders(pkgs)
 		add("BytesBuild.lean", c4, e4)
+		c5, e5 := passDrivers(pkgs)
+		add("Drivers.lean", c5, e5)
 	}
 	{
 		c, e := passCT(root)
